@@ -8,9 +8,10 @@ import numpy as np
 from . import env
 
 env.import_pyhms()
-from pyhms.config import BaseLevelConfig  # noqa: E402
+from pyhms.config import BaseLevelConfig, EALevelConfig  # noqa: E402
 from pyhms.core.individual import Individual  # noqa: E402
 from pyhms.demes.abstract_deme import AbstractDeme  # noqa: E402
+from pyhms.demes.ea_deme import EADeme  # noqa: E402
 from pyhms.stop_conditions.lsc import LocalStopCondition  # noqa: E402
 
 
@@ -66,3 +67,13 @@ class CallableObjective:
 
     def __call__(self, x, *args, **kwargs):
         return self.rec(x, *args, **kwargs)
+
+
+class TaggedEAConfig(EALevelConfig):
+    """A *new* config class that derives from a built-in one (registered for its own deme class)."""
+
+
+class TaggedEADeme(EADeme):
+    """Custom deme class registered for TaggedEAConfig: an EA deme that tags itself."""
+
+    tag = "custom-ea"
